@@ -251,7 +251,7 @@ theorem serverBidMap_eq : serverBidMap = some
 /-- channel type: SubmitOrder's switch followed by ParseRPCServerOrder's switch is the identity on the
 three defined channel types (over the regenerated tables) -/
 theorem chan_roundtrip (ct : Nat) (h : ct ≤ 2) :
-    ∃ n, Gen.submitChannelType.lookup ct = some n ∧ Gen.parseChannelType.lookup n = some ct := by
+    ∃ n, Gen.C12.submitChannelType.lookup ct = some n ∧ Gen.C12.parseChannelType.lookup n = some ct := by
   have : ct = 0 ∨ ct = 1 ∨ ct = 2 := by omega
   rcases this with rfl | rfl | rfl
   · exact ⟨1, by decide, by decide⟩
@@ -260,7 +260,7 @@ theorem chan_roundtrip (ct : Nat) (h : ct ≤ 2) :
 
 /-- node tier: MarshallNodeTier is invertible on the three defined tiers -/
 theorem tier_roundtrip (t : Nat) (h : t ≤ 2) :
-    ∃ n, Gen.marshallNodeTier.lookup t = some n ∧ unmarshallNodeTier n = some t := by
+    ∃ n, Gen.C12.marshallNodeTier.lookup t = some n ∧ unmarshallNodeTier n = some t := by
   have : t = 0 ∨ t = 1 ∨ t = 2 := by omega
   rcases this with rfl | rfl | rfl
   · exact ⟨0, by decide, by decide⟩
@@ -361,5 +361,90 @@ theorem wire_roundtrip_ask (o : Order) (p : Params) (hs : Sendable o) (hb : o.is
   refine ⟨_, _, rfl, by simp [wbytes, wget], by simp [wbytes, wget], ?_⟩
   simp [orderOfWire, wnum, wbytes, wbool, wget, hc2, sameSigned, hb, wrapI64_u64OfInt hs.wf.amt,
     wrapI64_u64OfInt hs.wf.fee, minChan_roundtrip hs.minChan]
+
+/-! ## ParseRPCOrder -/
+
+theorem lookup_snd_mem {l : List (Nat × Nat)} {a b : Nat} (h : l.lookup a = some b) : b ∈ l.map (·.2) := by
+  induction l with
+  | nil => simp [List.lookup] at h
+  | cons x l ih =>
+    obtain ⟨k, v⟩ := x
+    simp only [List.lookup] at h
+    split at h
+    · injection h with h; simp [h]
+    · simp [ih h]
+
+theorem copyInto_length (n : Nat) (src : Bytes) : (copyInto n src).length = n := by
+  simp [copyInto, List.length_take]; omega
+
+theorem wrapI64_range (a : Int) : I64 (wrapI64 a) := by unfold I64 wrapI64; omega
+
+/-- what the Go types of `poolrpc.Order` and of the other arguments guarantee -/
+structure RpcWF (version lease : Nat) (d : RpcOrder) : Prop where
+  version : version < 4294967296
+  lease : lease < 4294967296
+  rate : d.rateFixed < 4294967296
+  amt : d.amt < 18446744073709551616
+  fee : d.maxBatchFeeRate < 18446744073709551616
+  minUnits : d.minUnitsMatch < 4294967296
+  auction : d.auctionType < 4294967296
+
+theorem parsed_order_in_domain (version lease : Nat) (d : RpcOrder) (sel : Option Nat) (o : Order)
+    (hd : RpcWF version lease d) (hsel : ∀ s, sel = some s → s ≤ 2)
+    (h : parseRPCOrder version lease d sel = .ok o) :
+    TypeWF o ∧ MinMatchFits32 o ∧ 1 ≤ o.minUnitsMatch ∧ o.minUnitsMatch * 100000 < 18446744073709551616 ∧
+    o.channelType ≤ 2 ∧ o.minUnitsMatch = d.minUnitsMatch ∧
+    (d.auctionType ≠ outboundMarket → o.units < 4294967296 → o.minUnitsMatch ≤ o.units) := by
+  unfold parseRPCOrder at h
+  simp only at h
+  generalize hU : u64OfInt (wrapI64 ↑d.amt) / base = U at h
+  have hUlt : U < 18446744073709551616 := by
+    rw [← hU]
+    exact Nat.lt_of_le_of_lt (Nat.div_le_self _ _) (u64OfInt_lt _)
+  split at h
+  · simp at h
+  · rename_i hz
+    split at h
+    · simp at h
+    · rename_i hx
+      split at h
+      · simp at h
+      · rename_i ct hct
+        split at h
+        · simp at h
+        · split at h
+          · simp at h
+          · split at h
+            · simp at h
+            · split at h
+              · simp at h
+              · injection h with h
+                subst h
+                have hmu : d.minUnitsMatch ≠ 0 := by simpa using hz
+                have hmu32 := hd.minUnits
+                have hct2 : ct ≤ 2 := by
+                  split at hct
+                  · injection hct with hct
+                    cases hs : sel with
+                    | none => simp [hs] at hct; omega
+                    | some s => simp [hs] at hct; have := hsel s hs; omega
+                  · have := lookup_snd_mem hct
+                    simp [Gen.C12.parseOrderChannelType] at this
+                    omega
+                refine ⟨?_, hd.minUnits, by show 1 ≤ d.minUnitsMatch; omega, by show d.minUnitsMatch * 100000 < _; omega,
+                  hct2, rfl, ?_⟩
+                · exact { nonce := copyInto_length _ _, version := hd.version, state := by show (0:Nat) < 256; decide,
+                          fixedRate := hd.rate, amt := wrapI64_range _, units := hUlt, unitsUnfulfilled := hUlt,
+                          fee := wrapI64_range _, lease := hd.lease,
+                          minUnits := by show d.minUnitsMatch < _; omega,
+                          channelType := by show ct < 256; omega, auctionType := hd.auction,
+                          tier := by show (0:Nat) < 4294967296; decide,
+                          scb := by show I64 0; unfold I64; decide }
+                · intro hne hu
+                  simp only [bne_iff_ne, ne_eq, Bool.and_eq_true, decide_eq_true_eq, not_and, Nat.not_lt] at hx
+                  have := hx hne
+                  show d.minUnitsMatch ≤ U
+                  have hu' : U < 4294967296 := hu
+                  omega
 
 end Pool.C12
